@@ -101,3 +101,33 @@ def validate_traces(traces, module="RexTrace", cfg=None, timeout=3600, keep=None
         return vs, r["stats"], r["wall"]
     finally:
         shutil.rmtree(d, ignore_errors=True)
+
+
+def stream_tlc(module, cfg, prefix, max_lines, simulate="num=100000000", depth=10, seed=1, env=None, timeout=300):
+    """Run TLC in simulation mode and collect at most max_lines stdout lines starting with `prefix`; then stop TLC.
+    (TLC 1.8's num= bound counts differently from behaviours printed; the reader bounds the run instead.)"""
+    md = scratch("tlcmeta_")
+    cmd = ["java", "-XX:+UseParallelGC", "-Xmx2g", "-cp", JAR_CP, "tlc2.TLC", "-workers", "1", "-metadir", md, "-noGenerateSpecTE",
+           "-config", cfg, "-deadlock", "-simulate", simulate, "-depth", str(depth), "-seed", str(seed), module + ".tla"]
+    e = dict(os.environ)
+    if env:
+        e.update({k: str(v) for k, v in env.items()})
+    lines, tail = [], []
+    t0 = time.time()
+    p = subprocess.Popen(cmd, cwd=SPECS, env=e, stdout=subprocess.PIPE, stderr=subprocess.STDOUT, text=True)
+    try:
+        for line in p.stdout:
+            if line.startswith(prefix):
+                lines.append(line.rstrip("\n"))
+                if len(lines) >= max_lines:
+                    break
+            else:
+                tail.append(line)
+                tail = tail[-60:]
+            if time.time() - t0 > timeout:
+                break
+    finally:
+        p.kill()
+        p.wait()
+        shutil.rmtree(md, ignore_errors=True)
+    return lines, "".join(tail)
